@@ -9,6 +9,7 @@ import (
 	"runtime/debug"
 	"strings"
 	"sync"
+	"sync/atomic"
 	"testing"
 	"testing/synctest"
 	"unsafe"
@@ -168,6 +169,9 @@ func (s *sim) hook(a *attempt, site, dir, key string) {
 		h.site = site
 		if site == "release" {
 			h.proxyEnded = true
+			if h.attachedR && !s.endCause(h) {
+				h.endedNoCause = true
+			}
 		}
 		s.parks = append(s.parks, p)
 		s.mu.Unlock()
@@ -183,6 +187,21 @@ func (s *sim) hook(a *attempt, site, dir, key string) {
 		s.unbusy(h)
 	}
 	s.mu.Unlock()
+}
+
+// endCause reports whether anything has happened that ends stream h: its own
+// transport's end or failure, its caller's context, its peer's release, the
+// operator's input closing, shutdown.  Called with s.mu held, at the moment
+// the stream's proxy has ended.
+func (s *sim) endCause(h *half) bool {
+	if s.ctxDying(h) || s.shutdown || h.cancelCause {
+		return true
+	}
+	at := h.att
+	if h.dir == dirOut {
+		return at.r != nil && (at.r.ended || at.r.closed)
+	}
+	return s.inputClosed || (at.w != nil && (at.w.failed || at.w.closed))
 }
 
 // unbusy: h has left its lock section.
@@ -250,13 +269,22 @@ func (s *sim) setup() {
 		return
 	}
 	s.b = b
+	if cfg.Served > 0 {
+		if served(b, cfg.Served) > 0 {
+			s.probes["counters_moved_forward"]++
+		}
+	}
 	s.lock = brokerLock(b)
 	if s.lock == nil && cfg.LogPark {
 		s.probes["log_park_unavailable"]++
 	}
 	s.bctx, s.bcancel = context.WithCancel(context.WithValue(context.Background(), simKey{}, s))
 	for i := 0; i < cfg.Listeners; i++ {
-		ch := make(chan iobroker.Event, 4096)
+		n := 4096
+		if i == 0 && cfg.LazyListener {
+			n = 1 + len(cfg.IDs)%2
+		}
+		ch := make(chan iobroker.Event, n)
 		s.listen = append(s.listen, ch)
 		s.events = append(s.events, nil)
 		b.AddEventListener(ch)
@@ -387,6 +415,35 @@ func brokerLock(b *iobroker.Broker) *sync.Mutex {
 		return nil
 	}
 	return (*sync.Mutex)(unsafe.Add(unsafe.Pointer(b), f.Offset))
+}
+
+// served makes the broker look like one that has already served n requests:
+// every counter it keeps (fields of an atomic integer type, found by
+// reflection) is moved forward by n.  A long-running listener reaches any such
+// value; doing it by 2^32 real requests is not affordable.  Returns how many
+// counters were found.
+func served(b *iobroker.Broker, n uint64) int {
+	t := reflect.TypeOf(b).Elem()
+	k := 0
+	for i := 0; i < t.NumField(); i++ {
+		f := t.Field(i)
+		p := unsafe.Add(unsafe.Pointer(b), f.Offset)
+		switch f.Type {
+		case reflect.TypeOf(atomic.Uint64{}):
+			(*atomic.Uint64)(p).Add(n)
+			k++
+		case reflect.TypeOf(atomic.Int64{}):
+			(*atomic.Int64)(p).Add(int64(n))
+			k++
+		case reflect.TypeOf(atomic.Uint32{}):
+			(*atomic.Uint32)(p).Add(uint32(n))
+			k++
+		case reflect.TypeOf(atomic.Int32{}):
+			(*atomic.Int32)(p).Add(int32(n))
+			k++
+		}
+	}
+	return k
 }
 
 func (s *sim) maybeLogPark() {
